@@ -1,10 +1,12 @@
 (* c18_driver.ml — runs the extracted template-text model (Tmpl.v) on the C18 case protocol (see harness/c18.c).
-   Protocol (stdin): TB/TD table lines as for the fm94 driver, then
+   Protocol (stdin): TB/TD table lines as for the fm94 driver, "FORMAT legacy|fixed" selects the model of the text format
+   (Tmpl.v: the code as it stands, Tmpl2.v: as corrected by proposed_fixes/C18_template_text.md), then
      T <ed> <n> <item>...   -> "T text=<hex> load=<0|1> copy=<0|1> cmpL=<rc|-> cmpC=<rc|-> | L <ed> <item>.. | C <ed> <item>.. | GO <desc>.."
      X <hex>                -> "X load=<0|1> | L <ed> <item>.."                                                                     *)
 let tb : (z * bent) list ref = ref []
 let td : (z * z list) list ref = ref []
 let fuel = nat_of_int 400000
+let fixed = ref false
 let tables () = { tB = List.rev !tb; tD = List.rev !td }
 let kind_of_int = function 0 -> UNum | 1 -> UCode | 2 -> UFlag | _ -> UStr
 let text_of_string (s : string) : z list = List.init (String.length s) (fun i -> z_of_int (Char.code s.[i]))
@@ -62,11 +64,12 @@ let handle line =
   | "TB" :: d :: k :: s :: r :: w :: _ ->
     tb := (z_of_string d, { b_kind = kind_of_int (int_of_string k); b_scale = z_of_string s; b_ref = z_of_string r; b_width = z_of_string w }) :: !tb
   | "TD" :: d :: seq -> td := (z_of_string d, List.map z_of_string seq) :: !td
+  | "FORMAT" :: f :: _ -> fixed := (f = "fixed")
   | "T" :: ed :: n :: rest ->
     let tt = tables () in
     let t = { t_ed = z_of_dec ed; t_items = List.map parse_item (take (int_of_string n) rest) } in
-    let txt = save_text t in
-    let l = load_text fuel tt txt in
+    let txt = if !fixed then save2_text t else save_text t in
+    let l = if !fixed then load2_text fuel tt txt else load_text fuel tt txt in
     let c = copy fuel tt t in
     let cmp r = match r with Ok t' -> string_of_int (int_of_z (tcompare fuel tt t t')) | Err _ -> "-" in
     Printf.printf "T text=%s load=%d copy=%d cmpL=%s cmpC=%s%s%s | GO%s\n" (hex_of_text txt)
@@ -76,7 +79,7 @@ let handle line =
        | Ok ds -> String.concat "" (List.map (fun d -> " " ^ dec_of_z d) ds) | Err _ -> " ERR")
   | "X" :: rest ->
     let txt = match rest with h :: _ -> text_of_hex h | [] -> [] in
-    let l = load_text fuel (tables ()) txt in
+    let l = if !fixed then load2_text fuel (tables ()) txt else load_text fuel (tables ()) txt in
     Printf.printf "X load=%d%s\n" (match l with Ok _ -> 1 | Err _ -> 0) (show_tmpl "L" l)
   | _ -> failwith ("bad line: " ^ line)
 let () = iter_lines handle
